@@ -91,7 +91,7 @@ fn main() {
         "E-ENUM. Octet alphabet O = {00 - . * 0 A Z [ \\ _ a z 7f 80 ff}; labels = all strings over O of length 1..2 plus fill \
          labels of 62/63 octets; U1 = all absolute names of 0..2 labels over those labels; U2 = all names of 0..2 labels over \
          the 9-octet sub-alphabet {00 . A Z [ a z 80 ff}, absolute AND relative; thorough adds U3 = 0..3 labels over {00 A [ a ff}. \
-         pair family: all ordered pairs of labels (Label eq/hash/cmp); ALL ordered pairs of U1 (Name eq/hash/cmp, LowerName cmp; thorough: all clauses), of U2 (all clauses incl. \
+         pair family: all ordered pairs of labels (Label eq/hash/cmp); ALL ordered pairs of U1 (Name eq/hash/cmp; thorough: all clauses), of U2 (all clauses incl. \
          LowerName/RrKey eq/hash/cmp, absolute x relative) and of U3, oracle = vref::name (ASCII-folded label identity + flag; RFC 4034 \
          6.1 comparator via dense ranks); triple family: transitivity over all triples of a 1-label/2-label absolute+relative \
          universe. wire family: every name of U1 (+ names at 255 octets / 127 labels) x offsets {0,12,3ffe,3fff,4000} x \
